@@ -321,7 +321,8 @@ PROPS["C19"] = dict(
     level_note="Bounded-time form of the liveness claim; 'always' is not established. Timing verdicts are re-run twice and reported only if they reproduce both times. The helpers are small fakes built from /verif/tools/fakezm; "
                "the start header arrives within one read, as the detector works per read.",
     rule="non-trivial = a session with an end event, or a header with a veto; distinct by SHA-1 of the case JSON",
-    tests=[dict(name="TestVF_C19", env=dict(VERIF_CASE_LIMIT=300), quick=dict(checks=192, shards=32, timeout=900, shrink="60s"), thorough=dict(checks=3000, shards=32, timeout=10000, shrink="120s"))],
+    tests=[dict(name="TestVF_C19", env=dict(VERIF_CASE_LIMIT=300), quick=dict(checks=192, shards=32, timeout=900, shrink="60s"), thorough=dict(checks=3000, shards=32, timeout=10000, shrink="120s")),
+           dict(name="TestVF_C19Timeouts", rapid=False, env=dict(VERIF_CASE_LIMIT=300), quick=dict(shards=16, timeout=300), thorough=dict(shards=16, timeout=300))],
 )
 
 PROPS["C13"] = dict(
